@@ -80,7 +80,7 @@ std::string first_ezc3d_fn(const std::string &text, size_t from, size_t to) {
         p = text.find(" in ezc3d::", p);
         if (p == std::string::npos || p >= to) return "?";
         size_t b = p + 4;
-        size_t e = text.find_first_of("( \n", b);
+        size_t e = text.find_first_of("([ \n", b);
         std::string fn = text.substr(b, e - b);
         return fn;
     }
@@ -129,6 +129,25 @@ Outcome classify(const std::string &prop, const std::string &out, int status) {
             size_t b = p + 25, e = out.find_first_of(" \n:(", b);
             cls = "asan:" + out.substr(b, e - b);
             fn = first_ezc3d_fn(out, p, out.size());
+            if (cls == "asan:requested" || cls == "asan:allocation-size-too-big" || cls == "asan:out-of-memory" || cls == "asan:calloc-overflow") {
+                // the instrumented build's way of saying "allocation out of proportion": same key as the plain build's heap budget,
+                // named by the section reader (outermost ezc3d frame below the constructor)
+                std::string outer = "?";
+                size_t q = p;
+                while ((q = out.find(" in ezc3d::", q)) != std::string::npos) {
+                    size_t b2 = q + 4, e2 = out.find_first_of("( \n", b2);
+                    std::string f2 = out.substr(b2, e2 - b2); { size_t br = f2.find('['); if (br != std::string::npos) f2.resize(br); }
+                    if (f2 != "ezc3d::c3d::c3d") outer = f2; else break;
+                    q = e2;
+                }
+                Outcome ob; ob.kind = "viol";
+                std::string key = prop + "/budget/heap/" + outer + "/" + fn;
+                ob.keys.insert(key); ob.firstKey = key;
+                ob.detail = oneline(out.substr(p, 300));
+                size_t a2 = out.rfind("PROGRESS alt=");
+                if (a2 != std::string::npos) ob.failing_alt = std::atoi(out.c_str() + a2 + 13);
+                return ob;
+            }
         } else cls = "asan:?";
     } else if (WEXITSTATUS(status) == 66) {
         size_t p = out.find("WARNING: ThreadSanitizer: ");
